@@ -38,10 +38,12 @@ def gen_cases(tier, seed):
         if k % 3 == 0:
             # proposals far above what the scheme accepts: forces refused attempts followed by successful retries
             o.update(dt_init=0.05, dt_max=float(rng.choice([0.5, 2.0])), max_solve_retries=25, adaptive_window=int(rng.choice([1, 3])), solve_time=12.0)
-        drive = {"A": S.field_spec(rng, dev, o, str(rng.choice(["uniform", "ramp", "zero"])), b=float(rng.choice([0.2, 0.6]))),
+        drive = {"A": S.field_spec(rng, dev, o, ["ramp", "uniform", "osc", "zero", "piecewise", "uniform"][k % 6], b=float(rng.choice([0.2, 0.6]))),
                  "currents": S.current_spec(rng, dev, o, "const" if nt else "none"),
                  "epsilon": {"kind": str(rng.choice(["one", "spatial", "time", "const"])), "value": -0.5}}
-        cases.append({"layer": "L2", "device": dev, "options": o, "drive": drive, "monitors": ["step"], "cost": 30 if scr else 8, "solve_twice": bool(k % 2)})
+        # "fresh": w^n is built with the covariant Laplacian of the vector potential in force AT THIS STEP (the operator handed to the
+        # step is compared with the potential the harness evaluates itself at the step's time)
+        cases.append({"layer": "L2", "device": dev, "options": o, "drive": drive, "monitors": ["step", "fresh"], "cost": 30 if scr else 8, "solve_twice": bool(k % 2)})
     for k in range(2 if tier == "quick" else 6):
         # gamma = 0 (no inelastic scattering) is an ordinary value of the layer
         dev = zoo.gen_device(rng, n_terminals=int([0, 2][k % 2]), n_holes=0, probes=0, size="small", gamma=0.0)
@@ -67,6 +69,21 @@ def gen_cases(tier, seed):
             o.update(dt_init=0.05, dt_max=0.5, max_solve_retries=25, adaptive_window=2, solve_time=4.0)  # retried steps as well
         drive = {"A": S.field_spec(rng, dev, o, "uniform", b=0.25), "currents": S.current_spec(rng, dev, o, ["const", "callable"][k % 2], strength=0.3), "epsilon": {"kind": "one"}}
         cases.append({"layer": "L2", "device": dev, "options": o, "drive": drive, "monitors": ["step"], "cost": 30})
+    for k in range(2 if tier == "quick" else 6):
+        # continuation from a seed whose terminal sites hold values the new run does not pin them to: psi^0 of the new run is the
+        # seed's state, and the first step is built from exactly that state
+        dev = zoo.gen_device(rng, n_terminals=2, n_holes=0, probes=0, size="small", gamma=float([10.0, 1.0][k % 2]))
+        o = S.base_options(rng, adaptive=True, steps=40)
+        o["terminal_psi"] = [0.0, 0.5][k % 2]
+        drive = {"A": S.field_spec(rng, dev, o, "uniform", b=0.3), "currents": S.current_spec(rng, dev, o, "const", strength=0.2), "epsilon": {"kind": "one"}}
+        cases.append({"layer": "L2", "device": dev, "options": o, "drive": drive, "monitors": ["step"], "seed_terminal_psi": ["none", 1.0][k % 2], "cost": 10})
+    for k in range(2 if tier == "quick" else 6):
+        # the retry budget is exactly what the worst step needs: the solution found on the last permitted retry is not thrown away
+        dev = zoo.gen_device(rng, n_terminals=0, n_holes=0, probes=0, size="small", gamma=float([10.0, 1.0][k % 2]))
+        o = dict(adaptive=True, adaptive_window=int([1, 3][k % 2]), adaptive_time_step_multiplier=float([0.5, 0.25, 0.7][k % 3]), max_solve_retries=60,
+                 dt_init=0.1, dt_max=2.0, solve_time=8.0, save_every=10, field_units="mT", current_units="uA", output="file")
+        drive = {"A": S.field_spec(rng, dev, o, "uniform", b=0.6), "currents": {"kind": "none"}, "epsilon": {"kind": "one"}}
+        cases.append({"layer": "L2", "device": dev, "options": o, "drive": drive, "monitors": ["step"], "exact_budget": True, "cost": 12})
     return cases
 
 
@@ -90,7 +107,34 @@ def _psi(rng, n):
 
 def run_case(spec):
     if spec["layer"] == "L2":
-        out = S.run_sim_case(spec, "C02")
+        kw = {}
+        if spec.get("exact_budget"):
+            device, why = zoo.try_build_device(spec["device"])
+            if device is None:
+                return {"violations": [], "counters": {"refused_mesh": 1}, "classes": ["refused"], "nontrivial": False}
+            R, dts = S.probe_retry_depth(spec, device)
+            if not R:
+                return {"violations": [], "counters": {"exact_budget_premise_not_met": 1}, "classes": ["L2", "exact_budget", "premise_not_met"], "nontrivial": False}
+            spec = dict(spec, options=dict(spec["options"], max_solve_retries=R - 1))
+            kw = dict(device=device)
+        if "seed_terminal_psi" in spec:
+            from .. import sim
+
+            device, why = zoo.try_build_device(spec["device"])
+            if device is None:
+                return {"violations": [], "counters": {"refused_mesh": 1}, "classes": ["refused"], "nontrivial": False}
+            r0 = sim.run_sim(dict(spec, options=dict(spec["options"], terminal_psi=spec["seed_terminal_psi"])), [], device=device, keep_dir=True)
+            if r0.refused or r0.exception is not None or r0.solution is None:
+                return {"violations": [], "counters": {"refused_mesh": 1}, "classes": ["refused"], "nontrivial": False}
+            kw = dict(device=device, seed_solution=r0.solution)
+        out = S.run_sim_case(spec, "C02", **kw)
+        if "seed_terminal_psi" in spec and "counters" in out:
+            out["counters"]["seeded_runs"] = 1
+        if spec.get("exact_budget") and "counters" in out:
+            out["counters"]["exact_budget_runs"] = 1
+            if out["sample"].get("exception"):
+                out["violations"].append({"kind": "update_refused_although_solved", "mechanism": "update_refused_although_solution_found",
+                                          "detail": {"worst_step_needs_refusals": R, "max_solve_retries": R - 1, "exception": out["sample"]["exception"]}})
         out["classes"] = ["L2"] + S.classes_of(spec)
         out["nontrivial"] = out["counters"].get("spsq_calls_checked", 0) >= 50
         return out
